@@ -150,6 +150,7 @@ def showErr : Err → String
   | .unknownType t => s!"unknown-type:{t}"
   | .wrongType => "wrong-type"
   | .invalidDb => "invalid-db"
+  | .badExpire => "bad-expire"
   | .fuel => "fuel"
 
 structure Cfg where
